@@ -39,6 +39,9 @@ checks = {
  "C02": ("exploration", "bounded-exhaustive enumeration of a catalogue of out-of-subset / look-alike constructs x statement positions; per declaration: rejected by the real goose, or accepted and judged by the differential Go vs GooseLang-interpreter oracle of C01",
          "Every catalogue construct (unsupported assignment operators, operators, conversions, slice forms, literals, statement kinds, control-flow shapes, function-value calls, interface/generic/variadic/named-type declarations, goroutine forms ...) at every position is either rejected with a conversion error or translated faithfully on 28 input vectors.",
          "same trusted interpreter as C01; catalogue bounds; constructs whose GooseLang meaning cannot be pinned offline (string ordering, mixed-width shifts) are not judged", "2 C02"),
+ "C04": ("exploration", "bounded-exhaustive enumeration of small packages (every reference template x base declaration, chains of two, all permutations of the declaration units, several file layouts) translated by the real goose; structural oracle on the parsed output",
+         "For every enumerated package: one definition per declaration under the documented name, names distinct, every same-package identifier a body mentions is defined earlier in the file, self-recursion through the rec binder.",
+         "dependencies read off the emitted text; packages of at most 4 units (6 for the interface-conversion shape)", "2 C04"),
 }
 todo = {}
 man = {
